@@ -36,7 +36,12 @@ ALPHA = "ab<>,"
 NAMES = ["a", "b", "string", "mapping", "sequence", "uint64_t", "UUID",
          "x y", " ", "\n", "é", "日本", "0", "tuple", "variant", "a.b",
          "\U0001F600", "Offset", "set", "-", "()", "[]", "a b c", "\t",
-         "int8_t", "\x00"]
+         "int8_t", "\x00",
+         # characters that mean something to string formatting, regular
+         # expressions or a shell, in case a name ever passes through one
+         "%s", "100%", "%(key)s", "%%", "%d%r", "{0}", "{}", "{name}", "\\",
+         "'", '"', "$x", "\\n", "a%sb", "*", "+", "?", "[^", "(", "|", "^$",
+         ".*", "\\d"]
 
 
 def to_tuple(t):
